@@ -30,6 +30,7 @@ DECLS_TOKENS = [
     ('b', '"x;y" d', [(0, 5), (6, 7)]),
     ('b', 'f(g(a) b) c', [(0, 9), (10, 11)]),
     ('b', 'f(g(1, 2) + 3) d', [(0, 14), (15, 16)]),
+    ('b', '"s \\"h; t\\"" d', [(0, 12), (13, 14)]),          # escaped quotes of the string's own kind, a `;` between them
 ]
 # with a value-less statement in the rotation (`@include x;`): only the select_item_* expectations are defined for it
 DECLS_WITH_STATEMENT = [DECLS_TOKENS[0], ('@include x', None, []), DECLS_TOKENS[3], DECLS_TOKENS[1], ('@extend .y', None, [])]
